@@ -33,6 +33,8 @@ RIDX == 24 + (2 * NSlots)   \* long-lived index register (not Lean): inputs[1] &
 RCNT == 27 + (2 * NSlots)   \* counter of the post-increment loops (set to 0 in the prologue)
 RSAVE == 26 + (2 * NSlots)  \* holds the native caller's contents of the global variable's hard register during main
 GV == [k |-> "greg"]
+(* one program in four declares and uses the global variable in main (functions with such variables are generated without SSA passes) *)
+UseG == Glob # "no" /\ Len(inputs) >= 14 /\ inputs[14] = Zero64
 RVAL == 25 + (2 * NSlots)   \* long-lived rarely used value (not Lean): inputs[2] + 5
 MainRegTy == <<"i", "i", "i", "i", "i", "i", "i", "i", "i", "i", "i", "d", "d", "d", "f", "f", "ld", "ld", "i", "i", "i", "i", "i">>
              \o [i \in 1..NSlots |-> "i"]     \* one alloca pointer register per slot (24..): every such pointer has a single definition
@@ -54,9 +56,9 @@ InsIn(op, d, s) == [op |-> op, d |-> d, s |-> s]
 Br(op, l, s) == [op |-> op, l |-> l, s |-> s]
 
 Prologue ==
-  (IF Glob = "no" THEN <<>> ELSE <<InsIn("mov", Reg(RSAVE), <<GV>>)>>)      \* the hard register belongs to the native caller: saved here ...
+  (IF ~UseG THEN <<>> ELSE <<InsIn("mov", Reg(RSAVE), <<GV>>)>>)      \* the hard register belongs to the native caller: saved here ...
   \o [i \in 1..6 |-> InsIn("mov", Reg(i + 1), <<Mem("i64", 8 * (i - 1), RBUF, 0, 1)>>)]
-  \o (IF Glob = "no" THEN <<>> ELSE <<InsIn("mov", GV, <<Reg(4)>>)>>)
+  \o (IF ~UseG THEN <<>> ELSE <<InsIn("mov", GV, <<Reg(4)>>)>>)
   \o [i \in 1..3 |-> InsIn("dmov", Reg(11 + i), <<Mem("d", 48 + (8 * (i - 1)), RBUF, 0, 1)>>)]
   \o [i \in 1..2 |-> InsIn("fmov", Reg(14 + i), <<Mem("f", 72 + (4 * (i - 1)), RBUF, 0, 1)>>)]
   \o [i \in 1..2 |-> InsIn("ldmov", Reg(16 + i), <<Mem("ld", 80 + (16 * (i - 1)), RBUF, 0, 1)>>)]
@@ -76,7 +78,7 @@ Epilogue ==
   \o [i \in 1..3 |-> InsIn("dmov", Mem("d", 240 + (8 * (i - 1)), RBUF, 0, 1), <<Reg(11 + i)>>)]
   \o [i \in 1..2 |-> InsIn("fmov", Mem("f", 264 + (4 * (i - 1)), RBUF, 0, 1), <<Reg(14 + i)>>)]
   \o [i \in 1..2 |-> InsIn("ldmov", Mem("ld", 272 + (16 * (i - 1)), RBUF, 0, 1), <<Reg(16 + i)>>)]
-  \o (IF Glob = "no" THEN <<>> ELSE <<InsIn("mov", GV, <<Reg(RSAVE)>>)>>)   \* ... and put back before main returns
+  \o (IF ~UseG THEN <<>> ELSE <<InsIn("mov", GV, <<Reg(RSAVE)>>)>>)   \* ... and put back before main returns
   \o <<[op |-> "ret", s |-> <<Reg(2)>>]>>
 
 (* ---------------- helper functions (fixed) ------------------------------- *)
@@ -228,7 +230,7 @@ KindsOf == IF Vocab = "int" THEN KindsInt ELSE IF Vocab = "link" THEN KindsLink
                                                                       "callg14", "icall", "icall5"}) \ {"callg3", "lref1", "lref2", "lref3", "callva"}   \* functions with at most one result
          ELSE KindsInt \cup KindsFp \cup {"calla", "callg6", "callg7", "rblk", "blkv", "callg12", "callg13", "callg14"}
 NeedFull == {"pld", "pst", "gcall", "pidxst"}
-KindsGlob == IF Glob = "no" THEN {} ELSE {"gset", "gget", "gadd"} \cup (IF Glob = "calls" THEN {"gcall2"} ELSE {})
+KindsGlob == IF ~UseG THEN {} ELSE {"gset", "gget", "gadd"} \cup (IF Glob = "calls" THEN {"gcall2"} ELSE {})
 KindsAbs == IF Abs /\ Vocab \in {"all", "link", "int"} THEN {"absld", "absst", "absd"} ELSE {}
 Kinds == (IF Lean THEN KindsOf \ NeedFull ELSE KindsOf) \cup KindsAbs \cup KindsGlob
 
@@ -481,8 +483,8 @@ Render(k, v) ==
 InGridI == {Zero64, One64, Ones64, FromNat(2), FromNat(100), MinS64, MaxS64, <<0, 32768, 0, 0>>, <<65535, 32767, 0, 0>>,
             <<4660, 22136, 39612, 57072>>, Neg64(FromNat(7)), <<255, 0, 0, 0>>}
 InGridF == {FZero(0), FZero(1), Fin(0, 1, 0), Fin(1, 3, -1), Fin(0, 5, 0), Fin(0, 1, 10), Fin(1, 7, 2), Inf(0), NaN, Fin(0, 3, -2)}
-NIn == 13       \* 6 ints, 3 doubles, 2 floats, 2 long doubles
-InDom(i) == IF i <= 6 THEN InGridI ELSE InGridF
+NIn == 14       \* 6 ints, 3 doubles, 2 floats, 2 long doubles; the 14th choice is not an input value: does main use the global variable
+InDom(i) == IF i <= 6 THEN InGridI ELSE IF i = 14 THEN {Zero64, One64, FromNat(2), FromNat(3)} ELSE InGridF
 
 FpCells(fmt, x, pad) == [i \in 1..pad |-> IF i <= TySize(fmt) THEN FpC(fmt, i, x) ELSE ByteC(0)]
 WordCells(w) == [i \in 1..8 |-> ByteC(WordBytes(w)[i])]
@@ -558,7 +560,7 @@ InitMem(buf, lrs) ==
 InitFrames == <<[f |-> 1, id |-> 0, va |-> <<>>, pc |-> 1, regs |-> [r \in 1..Len(MainRegTy) |-> IF r = 1 THEN PtrV(1, 0) ELSE UndefV],
                  base |-> 6, ovf |-> NoOvf]>>
 MainFunc ==
-  [name |-> "main", params |-> <<"p">>, res |-> <<"i64">>, regty |-> MainRegTy, lrefs |-> LrSeq, gvar |-> (Glob # "no"),
+  [name |-> "main", params |-> <<"p">>, res |-> <<"i64">>, regty |-> MainRegTy, lrefs |-> LrSeq, gvar |-> UseG,
    insns |-> Prologue \o [i \in 1..Len(body) |-> Resolve(body[i])] \o Epilogue]
 Finalize ==
   /\ phase = "build" /\ slot = NSlots + 1 /\ cur.kind = ""
